@@ -195,3 +195,50 @@ def check_optional_by_none(ctx, rule: str, functions: List[FunctionInfo], kinds=
             ctx.ob(rule, construct(fi, f"optional `{p}` is tested with `is None`, never by truthiness"), not bad, loc(fi, bad[0] if bad else None),
                    "" if not bad else f"`{p}` is a legitimate value when it is 0 or '' (e.g. a column label of DataFrame(array)): the truth test treats it as 'not given'")
     return n
+
+
+INDEX_CALLS = {"index", "find", "rfind", "argmax", "argmin", "searchsorted", "get_loc", "bisect", "bisect_left", "bisect_right"}
+
+
+def _is_position_expr(e: ast.expr) -> bool:
+    """An expression whose value is a position in a sequence (0 is a legitimate result)."""
+    if isinstance(e, ast.Call):
+        name = call_name(e)
+        if name in INDEX_CALLS and isinstance(e.func, ast.Attribute):
+            return True
+        if name == "next" and e.args and isinstance(e.args[0], (ast.GeneratorExp, ast.ListComp)) and isinstance(e.args[0].elt, ast.Name):
+            g = e.args[0].generators[0]
+            # next((n for n, v in enumerate(seq) if ..), default): the element is the enumerate counter
+            if isinstance(g.iter, ast.Call) and call_name(g.iter) == "enumerate" and isinstance(g.target, ast.Tuple) and g.target.elts and isinstance(g.target.elts[0], ast.Name) and g.target.elts[0].id == e.args[0].elt.id:
+                return True
+            if isinstance(g.iter, ast.Call) and call_name(g.iter) == "range" and isinstance(g.target, ast.Name) and g.target.id == e.args[0].elt.id:
+                return True
+    return False
+
+
+def check_position_truthiness(ctx, rule: str, functions: List[FunctionInfo]) -> int:
+    """A position (result of .index(), of a search over enumerate / range) is never tested by
+    truthiness: position 0 is a hit, `if position:` treats it as 'not found' and the first element
+    of the sequence is silently skipped.  'Not found' is told apart with `is None` / `>= 0`."""
+    n = 0
+    bad_total = 0
+    for fi in functions:
+        pos_names = {}
+        for st in walk_no_nested(fi.node):
+            if isinstance(st, ast.Assign) and len(st.targets) == 1 and isinstance(st.targets[0], ast.Name):
+                pos_names.setdefault(st.targets[0].id, []).append(_is_position_expr(st.value))
+            elif isinstance(st, (ast.AugAssign, ast.AnnAssign)) and isinstance(st.target, ast.Name):
+                pos_names.setdefault(st.target.id, []).append(isinstance(st, ast.AnnAssign) and st.value is not None and _is_position_expr(st.value))
+        pos = {k for k, v in pos_names.items() if v and all(v)}
+        if not pos:
+            continue
+        tested = [x for x in truth_tested_names(fi.node) if x.id in pos]
+        for k in sorted(pos):
+            n += 1
+            bad = [x for x in tested if x.id == k]
+            bad_total += bool(bad)
+            ctx.ob(rule, construct(fi, f"position `{k}` is never tested by truthiness"), not bad, loc(fi, bad[0] if bad else None),
+                   "" if not bad else f"`{k}` is a position: 0 (the first element) is a hit, the truth test treats it as 'not found' and the first element is skipped")
+    if n == 0:
+        ctx.ob(rule, f"{len(functions)} functions: no position value bound to a name", True, "")
+    return n
